@@ -65,3 +65,34 @@ def random_points(h):
     h.check('initial-points-within-the-requested-limits',
             'forall(0, NP, lambda a: forall(0, D, lambda b: mn[b] <= pop[a][b] and pop[a][b] <= mx[b]))',
             NP=NP, D=D, pop=pop, mn=mn, mx=mx)
+
+
+SOF = 'mystic/scipy_optimize.py::NelderMeadSimplexSolver'
+
+
+@contract('C02/NelderMead._setSimplexWithinRangeBoundary', ['C02', 'C08'], SOF + '._setSimplexWithinRangeBoundary', native=False,
+          small=[dict(nDim=1), dict(nDim=2)])
+def simplex_within_ranges(h):
+    """the offsets that span the initial simplex: without ranges x0*(1+radius) (0.00025 for a zero coordinate, the
+    reference rule); with strict ranges every offset coordinate lies inside [min, max] and differs from the (clipped)
+    start coordinate wherever the range has room"""
+    strict = h.choice('useStrictRange', [False, True])
+    n = h.int('nDim')
+    h.assume('n >= 1', n=n)
+    x0 = h.list_real('x0', nd=True, n=n)
+    mn, mx = h.list_real('strictMin', nd=True, n=n), h.list_real('strictMax', nd=True, n=n)
+    h.assume('forall(0, n, lambda k: mn[k] <= mx[k])', n=n, mn=mn, mx=mx)
+    if strict:
+        h.assume('forall(0, n, lambda k: mn[k] <= x0[k] and x0[k] <= mx[k])', n=n, mn=mn, mx=mx, x0=x0)
+    s = h.obj(SOF, nDim=n, population=h.clist([x0]), _useStrictRange=strict, _strictMin=mn, _strictMax=mx)
+    old = h.snapshot(x0)
+    if h.is_sym():
+        h.set_summaries({(A, 'AbstractSolver._clipGuessWithinRangeBoundary'): lambda I, c, a, k: a[1]})   # x0 is inside: identity (contract above)
+    val = h.call(h.getattr(s, '_setSimplexWithinRangeBoundary'))
+    e = dict(val=val, n=n, mn=mn, mx=mx, old=old)
+    h.check('one-offset-per-dimension', 'len(val) == n', **e)
+    if strict:
+        h.check('offsets-inside-the-ranges', 'forall(0, n, lambda k: mn[k] <= val[k] and val[k] <= mx[k])', **e)
+    else:
+        h.check('reference-rule-without-ranges',
+                'forall(0, n, lambda k: val[k] == (old[k] * 1.05 if old[k] != 0 else 0.05 * 0.05 * 0.1))', **e)
